@@ -27,6 +27,7 @@ type RStep struct {
 	S    int    `json:"s,omitempty"`    // session slot
 	Act  string `json:"act,omitempty"`  // req del
 	Gate bool   `json:"gate,omitempty"` // hold the request inside the server call until released
+	Hold bool   `json:"hold,omitempty"` // hold the request right after timerMgr.Reset (sessionsMtx held, session mutex not yet taken)
 	Pm   int64  `json:"pm,omitempty"`   // start: delay before acting / sleep: duration, in 1/1000 of the timeout ...
 	Ns   int64  `json:"ns,omitempty"`   // ... plus this many ns (virtual clock only)
 }
@@ -52,6 +53,7 @@ type RaceResult struct {
 	Panic     string         `json:"panic,omitempty"`
 	Deadlock  bool           `json:"deadlock,omitempty"`
 	SetupFail string         `json:"setup_fail,omitempty"`
+	Skipped   string         `json:"skipped,omitempty"`
 }
 
 // serveDirect performs one exchange synchronously (usable outside a bubble).
@@ -108,6 +110,32 @@ func RunScenario(sc *Scenario) RaceResult {
 		res.Created = append(res.Created, R.wrap.lastTagged())
 	}
 	var mu sync.Mutex
+	// yield point after timerMgr.Reset: one-shot gates by cookie
+	resetGates := map[string]*gate{}
+	needHold := false
+	for _, st := range sc.Steps {
+		needHold = needHold || st.Hold
+	}
+	if needHold {
+		ok := hookAfterReset(h, func(key string, ok bool) {
+			mu.Lock()
+			g := resetGates[key]
+			delete(resetGates, key)
+			mu.Unlock()
+			if g != nil {
+				close(g.entered)
+				if ok {
+					<-g.release
+				}
+			}
+		})
+		if !ok {
+			res.Skipped = "no yield point after Reset on this tree (session-table accessor not built)"
+			R.hcloser()
+			R.closer()
+			return res
+		}
+	}
 	done := map[int]chan struct{}{}
 	gates := map[int]*gate{}
 	released := map[int]bool{}
@@ -122,6 +150,13 @@ func RunScenario(sc *Scenario) RaceResult {
 			name := fmt.Sprintf("race-%d", k)
 			if st.Gate && act == "req" {
 				gates[k] = R.wrap.addGate(name)
+			}
+			if st.Hold && act == "req" {
+				g := &gate{entered: make(chan struct{}), release: make(chan struct{})}
+				gates[k] = g
+				mu.Lock()
+				resetGates[cookies[s%len(cookies)]] = g
+				mu.Unlock()
 			}
 			delay := dur(sc.Tmo, st.Pm, st.Ns)
 			mu.Lock()
@@ -277,6 +312,19 @@ func FixedScenarios(vtmo, rtmo int64) []Scenario {
 			RStep{Op: "start", K: 1, S: 1, Act: "req"}, RStep{Op: "start", K: 2, S: 0, Act: "del"}, RStep{Op: "spin"},
 			RStep{Op: "release", K: 0}),
 	}
+	// the idle timer fires between a request's Reset and its taking the session mutex
+	out = append(out,
+		v("reset-then-expiry", 2,
+			RStep{Op: "start", K: 0, S: 0, Act: "req", Hold: true}, RStep{Op: "wait", K: 0},
+			RStep{Op: "sleep", Pm: 1000}, RStep{Op: "spin"},
+			RStep{Op: "release", K: 0}, RStep{Op: "start", K: 1, S: 1, Act: "req"}),
+		v("reset-then-delete", 1,
+			RStep{Op: "start", K: 0, S: 0, Act: "req", Hold: true}, RStep{Op: "wait", K: 0},
+			RStep{Op: "start", K: 1, S: 0, Act: "del"}, RStep{Op: "spin"}, RStep{Op: "release", K: 0}),
+		r("reset-then-expiry-wallclock", 2,
+			RStep{Op: "start", K: 0, S: 0, Act: "req", Hold: true}, RStep{Op: "wait", K: 0},
+			RStep{Op: "sleep", Pm: 1500}, RStep{Op: "start", K: 1, S: 1, Act: "req"}, RStep{Op: "start", K: 2, S: 0, Act: "del"}, RStep{Op: "spin"},
+			RStep{Op: "release", K: 0}))
 	for _, ns := range []int64{-1, 0, 1} {
 		tag := map[int64]string{-1: "minus1ns", 0: "exact", 1: "plus1ns"}[ns]
 		out = append(out,
@@ -334,7 +382,11 @@ func RandomScenario(r *rand.Rand, id string, virtual bool, vtmo, rtmo int64) Sce
 		}
 		st := RStep{Op: "start", K: k, S: r.IntN(sc.Sessions), Act: act}
 		if act == "req" && r.IntN(3) == 0 {
-			st.Gate = true
+			if r.IntN(3) == 0 {
+				st.Hold = true
+			} else {
+				st.Gate = true
+			}
 			gated = append(gated, k)
 			sc.Steps = append(sc.Steps, st, RStep{Op: "wait", K: k})
 		} else {
